@@ -836,7 +836,7 @@ nodesLoop:
 
 		case *ast.Send:
 			tic := tc.checkExpr(node.Channel)
-			if tic.Type.Kind() != reflect.Chan {
+			if tic.Nil() || tic.Type.Kind() != reflect.Chan {
 				panic(tc.errorf(node, "invalid operation: %s (send to non-chan type %s)", node, tic.ShortString()))
 			}
 			if tic.Type.ChanDir() == reflect.RecvDir {
